@@ -17,110 +17,80 @@ open XotModel
 
 /-! ### deep_equal ⇔ equal canonical forms -/
 
-/-- The full-strength statement: for all structurally valid subtrees, whatever their kind. -/
-def C13_iff_Statement : Prop :=
-  ∀ a b : Tree, a.valid = true → b.valid = true → (deepEqual a b = true ↔ canon a = canon b)
+/-- For every pair of nodes of structurally valid trees — documents, elements, text, comments, PIs,
+    and also attribute nodes (canonical form: name, value) and namespace nodes (prefix,
+    namespace) — `deep_equal` holds exactly when the canonical forms are equal. -/
+theorem C13_iff (a b : Tree) (va : a.valid = true) (vb : b.valid = true) :
+    deepEqual a b = true ↔ canon a = canon b := deepEqual_iff_canon a b va vb
 
-/-- For normal nodes (document, element, text, comment, PI) `deep_equal` holds exactly when the
-    canonical forms are equal. -/
-theorem C13_iff (a b : Tree) (va : a.valid = true) (vb : b.valid = true)
-    (na : a.value.isNormal = true) (nb : b.value.isNormal = true) :
-    deepEqual a b = true ↔ canon a = canon b := by
-  unfold deepEqual
-  rw [advancedDeepEqual_eq]
-  exact deepIffCanon a b va vb na nb
+/-- Attribute nodes are compared by name and value (the defect of DESIGN.md §8 row 15, "always
+    true", fixed in /repo by a361fb0). -/
+theorem C13_attribute_nodes (n m : Nat) (v w : Str) :
+    deepEqual (.node (.attribute n v) []) (.node (.attribute m w) []) = true ↔ n = m ∧ v = w := by
+  rw [C13_iff _ _ (by simp [Tree.valid, orderedKids, attrNamesNodup, attrPairs, Tree.valid.validList])
+    (by simp [Tree.valid, orderedKids, attrNamesNodup, attrPairs, Tree.valid.validList])]
+  simp [canon, cvalue, canon.canonList]
 
-/-- The same theorem under the name the defect boundary asks for: the extra hypothesis
-    "both nodes are normal" is exactly where `C13_iff_Statement` fails. -/
-theorem C13_iff_partial (a b : Tree) (va : a.valid = true) (vb : b.valid = true)
-    (na : a.value.isNormal = true) (nb : b.value.isNormal = true) :
-    deepEqual a b = true ↔ canon a = canon b := C13_iff a b va vb na nb
+/-- Namespace nodes are compared by prefix and namespace. -/
+theorem C13_namespace_nodes (p q n m : Nat) :
+    deepEqual (.node (.namespace p n) []) (.node (.namespace q m) []) = true ↔ p = q ∧ n = m := by
+  rw [C13_iff _ _ (by simp [Tree.valid, orderedKids, attrNamesNodup, attrPairs, Tree.valid.validList])
+    (by simp [Tree.valid, orderedKids, attrNamesNodup, attrPairs, Tree.valid.validList])]
+  simp [canon, cvalue, canon.canonList]
 
-/-- Defect (DESIGN.md §8 row 15): two attribute nodes with different names and values are
-    `deep_equal`, because the normal-filtered edge streams of both are empty. -/
-theorem C13_iff_fails_on_attribute_nodes :
-    deepEqual (.node (.attribute 3 ['v']) []) (.node (.attribute 4 ['w']) []) = true ∧
-    canon (.node (.attribute 3 ['v']) []) ≠ canon (.node (.attribute 4 ['w']) []) := by
-  constructor
-  · decide
-  · intro h; cases h
+/-! ### Equivalence relation (every node kind) -/
 
-theorem C13_iff_Statement_false : ¬ C13_iff_Statement := by
-  intro h
-  have := (h (.node (.attribute 3 ['v']) []) (.node (.attribute 4 ['w']) []) (by decide) (by decide)).mp
-    C13_iff_fails_on_attribute_nodes.1
-  exact C13_iff_fails_on_attribute_nodes.2 this
+theorem C13_reflexive (a : Tree) (va : a.valid = true) : deepEqual a a = true :=
+  (C13_iff a a va va).mpr rfl
 
-/-- What the code does outside the boundary: any two attribute / namespace nodes are equal … -/
-theorem C13_abnormal_always_equal (a b : Tree) (va : a.valid = true) (vb : b.valid = true)
-    (na : ¬ a.value.isNormal = true) (nb : ¬ b.value.isNormal = true) : deepEqual a b = true := by
-  unfold deepEqual
-  rw [advancedDeepEqual_eq]
-  show forestEqv strEq (proj allF a) (proj allF b) = true
-  rw [proj_allF_abnormal va na, proj_allF_abnormal vb nb]; rfl
-
-/-- … and never equal to a normal node. -/
-theorem C13_abnormal_vs_normal (a b : Tree) (va : a.valid = true)
-    (na : ¬ a.value.isNormal = true) (nb : b.value.isNormal = true) :
-    deepEqual a b = false ∧ deepEqual b a = false := by
-  unfold deepEqual
-  rw [advancedDeepEqual_eq, advancedDeepEqual_eq]
-  show forestEqv strEq (proj allF a) (proj allF b) = false ∧ forestEqv strEq (proj allF b) (proj allF a) = false
-  rw [proj_allF_abnormal va na, proj_allF_normal nb]
-  exact ⟨rfl, rfl⟩
-
-/-! ### Equivalence relation -/
-
-theorem C13_reflexive (a : Tree) (va : a.valid = true) (na : a.value.isNormal = true) :
-    deepEqual a a = true := (C13_iff a a va va na na).mpr rfl
-
-theorem C13_symmetric (a b : Tree) (va : a.valid = true) (vb : b.valid = true)
-    (na : a.value.isNormal = true) (nb : b.value.isNormal = true) :
+theorem C13_symmetric (a b : Tree) (va : a.valid = true) (vb : b.valid = true) :
     deepEqual a b = deepEqual b a := by
-  have h1 := C13_iff a b va vb na nb
-  have h2 := C13_iff b a vb va nb na
+  have h1 := C13_iff a b va vb
+  have h2 := C13_iff b a vb va
   cases hab : deepEqual a b <;> cases hba : deepEqual b a <;> simp_all
 
 theorem C13_transitive (a b c : Tree) (va : a.valid = true) (vb : b.valid = true) (vc : c.valid = true)
-    (na : a.value.isNormal = true) (nb : b.value.isNormal = true) (nc : c.value.isNormal = true)
     (hab : deepEqual a b = true) (hbc : deepEqual b c = true) : deepEqual a c = true :=
-  (C13_iff a c va vc na nc).mpr
-    (((C13_iff a b va vb na nb).mp hab).trans ((C13_iff b c vb vc nb nc).mp hbc))
+  (C13_iff a c va vc).mpr (((C13_iff a b va vb).mp hab).trans ((C13_iff b c vb vc).mp hbc))
 
 /-! ### The filtered / custom comparison -/
 
-/-- `advanced_deep_equal(a, b, filter, cmp)`, for all trees, filters and comparisons, is
-    structural equality (`compareValue cmp` node by node) of the forests of kept nodes, children
-    of dropped nodes hoisted in place (`proj`). -/
-theorem C13_advanced (f : NodeFilter) (cmp : TextCmp) (a b : Tree) :
-    advancedDeepEqual f cmp a b = forestEqv cmp (proj f a) (proj f b) := advancedDeepEqual_eq f cmp a b
-
-/-- With no filter and any text comparison: the canonical forms are related up to `cmp`
-    (`Canon.rel`: same kinds and names, attribute maps of the same size with `cmp`-related values
-    name by name, `cmp` on text and PI data, children pairwise). -/
-theorem C13_advanced_all (cmp : TextCmp) (a b : Tree) (va : a.valid = true) (vb : b.valid = true)
+/-- `advanced_deep_equal(a, b, filter, cmp)` on two normal nodes, for all trees, filters and
+    comparisons, is structural equality (`compareValue cmp` node by node) of the forests of kept
+    nodes, children of dropped nodes hoisted in place (`proj`). -/
+theorem C13_advanced (f : NodeFilter) (cmp : TextCmp) (a b : Tree)
     (na : a.value.isNormal = true) (nb : b.value.isNormal = true) :
+    advancedDeepEqual f cmp a b = forestEqv cmp (proj f a) (proj f b) := advancedDeepEqual_eq f cmp a b na nb
+
+/-- As soon as one node is an attribute / namespace node the two nodes are compared by value,
+    whatever the filter. -/
+theorem C13_advanced_abnormal (f : NodeFilter) (cmp : TextCmp) (a b : Tree)
+    (h : ¬ a.value.isNormal = true ∨ ¬ b.value.isNormal = true) :
+    advancedDeepEqual f cmp a b = compareValue cmp a b := advancedDeepEqual_abnormal f cmp a b h
+
+/-- With no filter and any text comparison, any two nodes of valid trees: the canonical forms are
+    related up to `cmp` (`Canon.rel`: same kinds and names, attribute maps of the same size with
+    `cmp`-related values name by name, `cmp` on text and PI data, children pairwise). -/
+theorem C13_advanced_all (cmp : TextCmp) (a b : Tree) (va : a.valid = true) (vb : b.valid = true) :
     advancedDeepEqual (fun _ => true) cmp a b = Canon.rel cmp (canon a) (canon b) :=
-  advancedDeepEqual_all_rel cmp a b va vb na nb
+  advancedDeepEqual_all_rel cmp a b va vb
 
 /-! ### What deep_equal does not see: prefixes, declarations, attribute order -/
 
 /-- Namespace nodes (declarations, hence also the prefixes they bind) are invisible: two trees
     that agree after erasing every namespace node are `deep_equal`. -/
 theorem C13_ignores_declarations (a b : Tree) (va : a.valid = true) (vb : b.valid = true)
-    (na : a.value.isNormal = true) (nb : b.value.isNormal = true) (h : stripNs a = stripNs b) :
-    deepEqual a b = true :=
-  (C13_iff a b va vb na nb).mpr (by rw [← canon_stripNs a, ← canon_stripNs b, h])
+    (h : stripNs a = stripNs b) : deepEqual a b = true :=
+  (C13_iff a b va vb).mpr (by rw [← canon_stripNs a, ← canon_stripNs b, h])
 
 /-- Prefix only: rebinding the prefix of a declaration anywhere changes nothing. (Names carry no
     prefix in xot: a prefix lives only in a namespace node.) -/
 theorem C13_ignores_prefix (v : Value) (pre rest : List Tree) (p q ns : Nat)
     (va : (Tree.node v (pre ++ .node (.namespace p ns) [] :: rest)).valid = true)
-    (vb : (Tree.node v (pre ++ .node (.namespace q ns) [] :: rest)).valid = true)
-    (nv : v.isNormal = true) :
+    (vb : (Tree.node v (pre ++ .node (.namespace q ns) [] :: rest)).valid = true) :
     deepEqual (.node v (pre ++ .node (.namespace p ns) [] :: rest))
               (.node v (pre ++ .node (.namespace q ns) [] :: rest)) = true := by
-  refine C13_ignores_declarations _ _ va vb nv nv ?_
+  refine C13_ignores_declarations _ _ va vb ?_
   have h : ∀ (l : List Tree) (x : Nat), stripNsList (l ++ .node (.namespace x ns) [] :: rest) = stripNsList (l ++ rest) := by
     intro l x
     induction l with
@@ -132,10 +102,9 @@ theorem C13_ignores_prefix (v : Value) (pre rest : List Tree) (p q ns : Nat)
     (at any depth the canonical form holds the attributes sorted by name: `canon`). -/
 theorem C13_ignores_attribute_order (v : Value) (pre A A' rest : List Tree) (p : A.Perm A')
     (hA : ∀ k ∈ A, ¬ k.value.isNormal = true)
-    (va : (Tree.node v (pre ++ A ++ rest)).valid = true) (vb : (Tree.node v (pre ++ A' ++ rest)).valid = true)
-    (nv : v.isNormal = true) :
+    (va : (Tree.node v (pre ++ A ++ rest)).valid = true) (vb : (Tree.node v (pre ++ A' ++ rest)).valid = true) :
     deepEqual (.node v (pre ++ A ++ rest)) (.node v (pre ++ A' ++ rest)) = true :=
-  (C13_iff _ _ va vb nv nv).mpr (canon_attr_perm v pre A A' rest p hA (valid_node va).2.1)
+  (C13_iff _ _ va vb).mpr (canon_attr_perm v pre A A' rest p hA (valid_node va).2.1)
 
 /-! ### deep_equal_xpath -/
 
@@ -176,58 +145,27 @@ theorem C13_children (a b : Tree) (va : a.valid = true) (vb : b.valid = true) :
 
 /-! ### shallow_equal, shallow_equal_ignore_attributes -/
 
-/-- The full-strength statement for ignore lists: the node itself and its attributes except the
-    listed names. -/
-def C13_shallow_ignore_Statement : Prop :=
-  ∀ (a b : Tree) (ign : List Nat), a.valid = true → b.valid = true →
-    a.attrLen < usizeModulus → b.attrLen < usizeModulus →
-    (shallowEqualIgnoreAttributes a b ign = true ↔
-      cvalueIgnoring ign a.value a.kids = cvalueIgnoring ign b.value b.kids)
-
-/-- True for ignore lists without a repeated name (absent names are fine). Only the compared
-    nodes' own children have to be well ordered with unique attribute names; the attribute lists
-    must have machine size. -/
-theorem C13_shallow_ignore_partial (a b : Tree) (ign : List Nat)
+/-- `shallow_equal_ignore_attributes` compares the node itself and its attributes except the
+    listed names — for every ignore list, with repeated and absent names (the miscount of DESIGN.md
+    §8 row 15 was fixed in /repo by 3b5a0f1). Only the compared nodes' own children have to be well
+    ordered with unique attribute names; `a`'s attribute list must have machine size (its counter
+    is a `usize`). -/
+theorem C13_shallow_ignore (a b : Tree) (ign : List Nat)
     (oa : orderedKids a.kids = true) (ob : orderedKids b.kids = true)
     (na : attrNamesNodup a.kids = true) (nb : attrNamesNodup b.kids = true)
-    (la : a.attrLen < usizeModulus) (lb : b.attrLen < usizeModulus) (hi : ign.Nodup) :
+    (la : a.attrLen < usizeModulus) :
     shallowEqualIgnoreAttributes a b ign = true ↔
       cvalueIgnoring ign a.value a.kids = cvalueIgnoring ign b.value b.kids :=
-  shallowEqualIgnore_iff a b ign oa ob na nb hi la lb
-
-/-- Defect: a name repeated in the ignore list is counted once per repetition in
-    `b_ignore_attributes`; `<a/>` vs `<a b="v"/>` ignoring `[b, b]` computes `0 == 1 - 2` on
-    `usize` (wraps in release builds, panics with overflow checks): `false`, though the nodes agree
-    outside the ignored name. -/
-theorem C13_shallow_fails_on_repeated_ignore :
-    shallowEqualIgnoreAttributes (.node (.element 2) []) (.node (.element 2) [.node (.attribute 3 ['v']) []]) [3, 3] = false ∧
-    cvalueIgnoring [3, 3] (.element 2) [] = cvalueIgnoring [3, 3] (.element 2) [.node (.attribute 3 ['v']) []] := by
-  constructor
-  · decide
-  · rfl
-
-/-- The same defect without underflow, in the other direction: `<a c="1"/>` vs
-    `<a b="v" c="1" d="2"/>` ignoring `[b, b]` gives `true` although `d` is only in the second. -/
-theorem C13_shallow_wrong_true_on_repeated_ignore :
-    shallowEqualIgnoreAttributes (.node (.element 2) [.node (.attribute 4 ['1']) []])
-      (.node (.element 2) [.node (.attribute 3 ['v']) [], .node (.attribute 4 ['1']) [], .node (.attribute 5 ['2']) []])
-      [3, 3] = true := by decide
-
-theorem C13_shallow_ignore_Statement_false : ¬ C13_shallow_ignore_Statement := by
-  intro h
-  have := (h (.node (.element 2) []) (.node (.element 2) [.node (.attribute 3 ['v']) []]) [3, 3]
-    (by decide) (by decide) (by decide) (by decide)).mpr C13_shallow_fails_on_repeated_ignore.2
-  rw [C13_shallow_fails_on_repeated_ignore.1] at this
-  cases this
+  shallowEqualIgnore_iff a b ign oa ob na nb la
 
 /-- `shallow_equal` compares the node itself and its attributes (any two nodes, attribute and
     namespace nodes included). -/
 theorem C13_shallow (a b : Tree)
     (oa : orderedKids a.kids = true) (ob : orderedKids b.kids = true)
     (na : attrNamesNodup a.kids = true) (nb : attrNamesNodup b.kids = true)
-    (la : a.attrLen < usizeModulus) (lb : b.attrLen < usizeModulus) :
+    (la : a.attrLen < usizeModulus) :
     shallowEqual a b = true ↔ (canon a).value = (canon b).value := by
-  have h := shallowEqualIgnore_iff a b [] oa ob na nb List.nodup_nil la lb
+  have h := shallowEqualIgnore_iff a b [] oa ob na nb la
   rw [cvalueIgnoring_nil, cvalueIgnoring_nil] at h
   cases a; cases b; exact h
 
@@ -261,20 +199,20 @@ example :
     deepEqual (.node (.element 6) [.node (.namespace 2 2) [], .node (.attribute 3 ['v']) [], .node (.attribute 4 []) [],
                                    .node (.text ['x']) []])
               (.node (.element 6) [.node (.attribute 4 []) [], .node (.attribute 3 ['v']) [], .node (.text ['x']) []]) = true :=
-  (C13_iff _ _ (by decide) (by decide) (by decide) (by decide)).mpr rfl
+  (C13_iff _ _ (by decide) (by decide)).mpr rfl
 
 
 /-- `C13_ignores_prefix` / `C13_ignores_attribute_order` / `C13_children`: the hypotheses hold of
     concrete trees. -/
 example : deepEqual (.node (.element 2) [.node (.namespace 2 2) [], .node (.text ['x']) []])
     (.node (.element 2) [.node (.namespace 3 2) [], .node (.text ['x']) []]) = true :=
-  C13_ignores_prefix (.element 2) [] [.node (.text ['x']) []] 2 3 2 (by decide) (by decide) (by decide)
+  C13_ignores_prefix (.element 2) [] [.node (.text ['x']) []] 2 3 2 (by decide) (by decide)
 
 example : deepEqual (.node (.element 2) [.node (.attribute 3 ['v']) [], .node (.attribute 4 []) [], .node (.text ['x']) []])
     (.node (.element 2) [.node (.attribute 4 []) [], .node (.attribute 3 ['v']) [], .node (.text ['x']) []]) = true :=
   C13_ignores_attribute_order (.element 2) [] [.node (.attribute 3 ['v']) [], .node (.attribute 4 []) []]
     [.node (.attribute 4 []) [], .node (.attribute 3 ['v']) []] [.node (.text ['x']) []]
-    (List.Perm.swap _ _ _) (by decide) (by decide) (by decide) (by decide)
+    (List.Perm.swap _ _ _) (by decide) (by decide) (by decide)
 
 example : deepEqualChildren (.node (.element 2) [.node (.attribute 3 ['v']) [], .node (.text ['x']) []])
     (.node .document [.node (.text ['x']) []]) = true :=
@@ -285,11 +223,22 @@ example : Tree.validRootFor xpathKeep
     (.node (.element 2) [.node (.attribute 3 ['v']) [], .node (.comment ['c']) [], .node (.text ['x']) []]) = true := by
   decide
 
-/-- `C13_shallow_ignore_partial`: an ignore list with an absent name, no repeats. -/
+/-- `C13_shallow_ignore`: an ignore list with a repeated and an absent name; the formerly
+    failing input `<a/>` vs `<a b="v"/>` ignoring `[b, b]`. -/
 example : shallowEqualIgnoreAttributes (.node (.element 2) [.node (.attribute 3 ['v']) []])
-    (.node (.element 2) [.node (.attribute 4 ['w']) [], .node (.attribute 3 ['v']) []]) [4, 17] = true :=
-  (C13_shallow_ignore_partial _ _ _ (by decide) (by decide) (by decide) (by decide) (by decide) (by decide)
-    (by decide)).mpr rfl
+    (.node (.element 2) [.node (.attribute 4 ['w']) [], .node (.attribute 3 ['v']) []]) [4, 17, 4] = true :=
+  (C13_shallow_ignore _ _ _ (by decide) (by decide) (by decide) (by decide) (by decide)).mpr rfl
+
+example : shallowEqualIgnoreAttributes (.node (.element 2) []) (.node (.element 2) [.node (.attribute 3 ['v']) []])
+    [3, 3] = true :=
+  (C13_shallow_ignore _ _ _ (by decide) (by decide) (by decide) (by decide) (by decide)).mpr rfl
+
+/-- `C13_iff` on attribute nodes: the formerly failing input. -/
+example : deepEqual (.node (.attribute 3 ['v']) []) (.node (.attribute 4 ['w']) []) = false := by
+  have := C13_attribute_nodes 3 4 ['v'] ['w']
+  cases h : deepEqual (.node (.attribute 3 ['v']) []) (.node (.attribute 4 ['w']) [])
+  · rfl
+  · exact absurd (this.mp h).1 (by decide)
 
 /-- `C13_string_value` on a valid element with nested text, a comment and an attribute. -/
 example : stringValue {} (.node (.element 2) [.node (.attribute 3 ['v']) [], .node (.text ['x']) [],
